@@ -607,7 +607,8 @@ class Gen:
         plans = []
         for b in rng.sample(sites, min(len(sites), rng.choice([1, 1, 2]))):
             plans.append((b, rng.choice(["after-call", "after-call",
-                                         "del-call", "before-call"])))
+                                         "del-call", "del-call",
+                                         "before-call"])))
         for b in rng.sample(others, min(len(others), rng.choice([1, 1, 2]))):
             plans.append((b, "patch-calls"))
         if members and rng.random() < 0.5:
